@@ -18,6 +18,7 @@ import PqlModel.Spec.ParseOracle
 import PqlModel.Spec.WalkOracle
 import PqlModel.Spec.CompileOracle
 import PqlModel.Spec.CliSpec
+import PqlModel.Spec.Rel
 import Driver.Proto
 open Pql
 
@@ -98,6 +99,48 @@ def histOracle (impl : String) : List String :=
   (if (impl.splitOn " ").contains "RACE" then ["c14-data-race"] else []) ++
   (if (impl.splitOn " ").contains "PANIC" then ["c12-panic"] else [])
 
+def showTable (t : Sql.Table) : String :=
+  "cols=" ++ toString (t.cols.map Bytes.toStringLossy) ++ " rows=" ++
+    toString (t.rows.map fun r => r.map fun v => Bytes.toStringLossy (Sql.showVal v))
+
+mutual
+def tabularHasJoin : Tabular → Bool
+  | .nil => false
+  | .mk _ ops => opsHaveJoin ops
+def opsHaveJoin : OpList → Bool
+  | .nil => false
+  | .cons (.join ..) _ => true
+  | .cons _ os => opsHaveJoin os
+end
+
+/-- C02 / C03: evaluate the emitted SQL and the pipeline on small databases -/
+def evalOracle (src : Bytes) (seed : Nat) (impl : String) : List String :=
+  match impl.splitOn " " with
+  | ["OK", h] =>
+    match Bytes.ofHex h with
+    | none => ["unreadable-result"]
+    | some sql =>
+      let parsed := parse src
+      if !parsed.2.isEmpty then [] else
+      match CompileOracle.readSql sql with
+      | none => ["c05-parse"]
+      | some st =>
+        let isJoin := parsed.1.any fun | .tabular t => tabularHasJoin t | _ => false
+        let tag := if isJoin then "c03" else "c02"
+        let bad := (List.range 4).filterMap fun i =>
+          let db := Rel.mkDB (seed + 1000 * i)
+          match Rel.interpProgram src db parsed.1 with
+          | none => none
+          | some want =>
+            let got := Sql.evalStatement db st
+            if got == want then none else some (i, want, got)
+        match bad with
+        | [] => []
+        | (i, want, got) :: _ =>
+          [tag ++ "-result-differs db=" ++ toString (seed + 1000 * i) ++ " pipeline:" ++ (showTable want).replace " " "_" ++
+            " sql:" ++ (showTable got).replace " " "_"]
+  | _ => []
+
 structure Verdict where
   model : String
   oracle : List String := []
@@ -148,6 +191,11 @@ def runOp (op : String) (fields : List String) (impl : String) : Option Verdict 
     let m := fmtCompile (compile params s)
     -- the model's text is compared with the normalised implementation result
     pure { model := if m == normCompile impl then impl else m, oracle := CompileOracle.clauses s params impl }
+  | "EVAL", [h, seed] => do
+    let s ← Bytes.ofHex h
+    let sd ← seed.toNat?
+    let m := fmtCompile (compile [] s)
+    pure { model := if m == normCompile impl then impl else m, oracle := evalOracle s sd impl }
   | "COMPILE2", [ha, hb, ps] => do
     let a ← Bytes.ofHex ha
     let b ← Bytes.ofHex hb
